@@ -7,7 +7,7 @@ fn desc(arg: &str, what: &str) -> String {
     format!("{{\"replay_arg\":{},\"what\":{}}}", crate::js(arg), crate::js(what))
 }
 
-pub struct Outcome { pub scores: Vec<i32>, pub labels: Vec<u8>, pub n_tags: usize, pub tags: Vec<Option<String>>, pub cands: Vec<(usize, Vec<Vec<(String, i64)>>)> }
+pub struct Outcome { pub scores: Vec<i32>, pub labels: Vec<u8>, pub wb_for_tags: Vec<bool>, pub n_tags: usize, pub tags: Vec<Option<String>>, pub cands: Vec<(usize, Vec<Vec<(String, i64)>>)> }
 
 pub fn run_real(md: &ModelData, text: &str, predict_tags: bool, roundtrip: bool) -> Result<Outcome, String> {
     let bytes = md.to_bytes();
@@ -28,7 +28,24 @@ pub fn run_real(md: &ModelData, text: &str, predict_tags: bool, roundtrip: bool)
     }
     let mut s = Sentence::from_raw(text.to_string()).map_err(|e| format!("text rejected: {e}"))?;
     if predict_tags { predictor.store_tag_scores(true); }
+    // texts of even length are predicted twice in a row on the same sentence object: the second prediction must
+    // overwrite the first ("overwriting any earlier annotation"), not add to it
+    if text.chars().count() % 2 == 0 { predictor.predict(&mut s); }
     predictor.predict(&mut s);
+    let labels: Vec<u8> = s.boundaries().iter().map(|b| *b as u8).collect();
+    // texts whose length is a multiple of 3: some boundaries are flipped by hand between predict and fill_tags (as a
+    // filter would): tags must follow the boundaries the sentence has when fill_tags runs
+    if predict_tags && text.chars().count() % 3 == 0 {
+        // (tags are filled once BEFORE the edit as well: the second fill must start from a clean table)
+        s.fill_tags();
+        let bs = s.boundaries_mut();
+        for (i, b) in bs.iter_mut().enumerate() {
+            if (i * 7 + text.len()) % 3 == 0 {
+                *b = if *b == B::WordBoundary { B::NotWordBoundary } else { B::WordBoundary };
+            }
+        }
+    }
+    let wb_for_tags: Vec<bool> = s.boundaries().iter().map(|b| *b == B::WordBoundary).collect();
     if predict_tags { s.fill_tags(); }
     // candidate scores as reported (score storing on): per token end, per category
     let cands = if predict_tags {
@@ -36,8 +53,9 @@ pub fn run_real(md: &ModelData, text: &str, predict_tags: bool, roundtrip: bool)
     } else { vec![] };
     Ok(Outcome {
         cands,
+        wb_for_tags,
         scores: s.boundary_scores().to_vec(),
-        labels: s.boundaries().iter().map(|b| *b as u8).collect(),
+        labels,
         n_tags: s.n_tags(),
         tags: s.tags().iter().map(|t| t.as_ref().map(|x| x.to_string())).collect(),
     })
@@ -54,6 +72,20 @@ pub fn case(seed: u64, with_tags: bool, roundtrip: bool, check_tags: bool) -> Op
         8 => md.type_ngram_model.0.clear(),
         13 => md.dict_model.0.clear(),
         18 => { md.char_ngram_model.0.clear(); md.type_ngram_model.0.clear(); }
+        _ => {}
+    }
+    // magnitudes and sparsity (every 6th seed each): weights near the limits of the signed 16-bit range (sums over one
+    // window leave that range), and weight vectors of more than 8 entries that are zero except for their last / first
+    // few entries (long dictionary words, large windows)
+    let each_vec = |md: &mut ModelData, f: &dyn Fn(&mut Vec<i32>)| {
+        for d in md.char_ngram_model.0.iter_mut() { f(&mut d.weights); }
+        for d in md.type_ngram_model.0.iter_mut() { f(&mut d.weights); }
+        for d in md.dict_model.0.iter_mut() { f(&mut d.weights); }
+    };
+    match seed % 6 {
+        4 => { each_vec(&mut md, &|w| for x in w.iter_mut() { *x *= 327; }); md.bias *= 327; }
+        1 => { let keep = 1 + (seed / 6 % 3) as usize; each_vec(&mut md, &|w| if w.len() > 8 { let n = w.len(); for x in w[..n - keep].iter_mut() { *x = 0; } }); }
+        5 => { let keep = 1 + (seed / 6 % 3) as usize; each_vec(&mut md, &|w| if w.len() > 8 { for x in w[keep..].iter_mut() { *x = 0; } }); }
         _ => {}
     }
     // every 7th seed the predictor is built with the OTHER tag-prediction flag: tag models present but tagging off
@@ -85,12 +117,12 @@ pub fn case(seed: u64, with_tags: bool, roundtrip: bool, check_tags: bool) -> Op
                 return Some(format!("tags on text #{t} {:?} although {}: n_tags {} {:?}", text, if predict_tags { "the model has no tag model" } else { "tag prediction is off" }, got.n_tags, got.tags));
             }
         } else if check_tags {
-            let (n_tags, tags) = reference_tags(&md, &text, &wb);
+            let (n_tags, tags) = reference_tags(&md, &text, &got.wb_for_tags);
             if n_tags != 0 && (got.n_tags != n_tags || got.tags != tags) {
                 return Some(format!("tags differ on text #{t} {:?}: expected n_tags {} {:?} actual n_tags {} {:?}", text, n_tags, tags, got.n_tags, got.tags));
             }
             // when score storing is enabled, the candidate scores reported for each token equal those sums
-            for (end, want_c) in reference_tag_scores(&md, &text, &wb) {
+            for (end, want_c) in reference_tag_scores(&md, &text, &got.wb_for_tags) {
                 let got_c = got.cands.iter().find(|(e, _)| *e == end).map(|(_, c)| c.clone()).unwrap_or_default();
                 if got_c != want_c {
                     return Some(format!("candidate scores of the token ending at {end} on text #{t} {:?}: expected {:?} actual {:?}", text, want_c, got_c));
